@@ -607,6 +607,13 @@ run_dcase(const dcase_t *c)
                 if (P_C01 && check_c01(g, &R, 0, cd, when) < 0)
                     goto out;
             }
+            if ((P_C11 || P_C12) && nsearched > 0 && (nsearched % 4) == 2) {
+                char when[64];
+                dc_collect(D, &R);
+                snprintf(when, sizeof when, "partial result after %d frames", nsearched);
+                if (check_lattice(g, &R, nsearched, cd, when) < 0)
+                    goto out;
+            }
             if ((P_C04 || P_C14) && nsearched > 0 && (nsearched % 4) == 1) {
                 /* second pass and JSON on a partial result, then the utterance goes on */
                 char when[64];
